@@ -257,23 +257,18 @@ impl<'result> CustomTypeParser<'result> {
     fn get_n_type_parameters<const N: usize>(
         &mut self,
     ) -> Result<[Result<ColumnType<'result>, CustomTypeParseError>; N], CustomTypeParseError> {
-        let mut backup = Self {
-            parser: self.parser,
-            frozen_context: self.frozen_context,
-        };
+        // The parameters are parsed exactly once. (Parsing them a second time just to count
+        // them for the error message made the cost of nested arity errors exponential
+        // in the nesting depth.)
+        let parameters: Vec<_> = self.get_type_parameters()?.collect();
+        let actual_parameter_count = parameters.len();
 
-        // FIXME: Rewrite using std::iter::FromIterator::collect_array after it is stabilized.
-        // See rust-lang/rust#149266
-        itertools::Itertools::collect_array::<N>(self.get_type_parameters()?).ok_or_else(|| {
-            // unwrap(): get_type_parameters() already worked above, so it will work here as well.
-
-            let actual_parameter_count = backup.get_type_parameters().unwrap().count();
-
-            CustomTypeParseError::InvalidParameterCount {
+        parameters
+            .try_into()
+            .map_err(|_| CustomTypeParseError::InvalidParameterCount {
                 actual: actual_parameter_count,
                 expected: N,
-            }
-        })
+            })
     }
 
     fn get_complex_abstract_type(
